@@ -244,7 +244,7 @@ def execute(sc):
             w.mutate(m)
         model = Model(w.root, 'Manifest')
         seam = Seam(w.root, order_key=sc['order_key'])
-        snap0 = w.snapshot()
+        snap0 = w.snapshot(with_mtime=False)
         top_path = os.path.join(w.root, 'Manifest')
         for i, op in enumerate(sc.get('ops', [])):
             api = op['api']
@@ -330,7 +330,7 @@ def execute(sc):
                 if r[0] != 'ok' or r[1] != model_entry_view(found):
                     violations.append(viol('lookup.wrong-entry', '%s rel=%r: gemato %s, model %r' % (what, op.get('rel'), describe(r), model_entry_view(found)), sig=api))
         violations += internal_violations(results)
-        violations += write_violations(seam, snap0, w.snapshot(), 'verification/lookup')
+        violations += write_violations(seam, snap0, w.snapshot(with_mtime=False), 'verification/lookup')
     counters['probes_through_broken_link'] = broken_any
     return mk_result([seam], violations, broken_any > 0, outcome=outcome, dontcare=zones,
                      counters=counters, ops=len(sc.get('ops', [])))
